@@ -1285,228 +1285,6 @@ Definition vol_ok (vb : bytes) : Prop :=
         asm (NVol h vb kids) (255, ffs) = Ok (NVol h' vb kids', (255, ffs)) /\
         fv_polarity (v_attrs h') = 255.
 
-(* ---------- R9: a volume of files ---------- *)
-
-(* the region between the 72-byte header and the first file: nothing (eo = 0), or an extended
-   header at offset 72 followed by the bytes up to the next 8-byte boundary *)
-Definition ext_ok (hl eo : Z) (ext : bytes) : Prop :=
-  (eo = 0 /\ ext = []) \/
-  (eo = hl /\ exists name edata gap, ext = ext_bytes name edata gap /\ zlen name = 16 /\
-     bytes_ok name = true /\ bytes_ok edata = true /\ bytes_ok gap = true /\
-     20 + zlen edata < 2 ^ 32 /\ zlen gap < 8 /\ (hl + zlen ext) mod 8 = 0).
-
-Theorem vol_ok_files_x zero g attrs reserved rev count bsize more eo ext files free :
-  zlen zero = 16 -> bytes_ok zero = true -> (g = FFS2 \/ g = FFS3) ->
-  0 <= attrs < 2 ^ 32 -> Z.land attrs 2048 <> 0 ->
-  0 <= reserved < 256 -> 0 <= rev < 256 ->
-  0 <= count < 2 ^ 32 -> 0 <= bsize < 2 ^ 32 -> (count =? 0) && (bsize =? 0) = false ->
-  forallb block_ok more = true -> fv_hlen more < 65536 ->
-  ext_ok (fv_hlen more) eo ext ->
-  Forall file_ok files -> files_aligned (fv_hlen more + zlen ext) files = true -> 0 <= free ->
-  fv_hlen more + zlen ext + zlen (flay files) + free < 2 ^ 64 ->
-  vol_ok (vol_bytes_x zero g attrs reserved rev count bsize more eo ext files free).
-Proof.
-  intros Lz Oz Hg Hat Hpol Hres Hrev Hc Hs Hnz Hmore Hhl Hext Hfiles Hal Hfree Hlen.
-  pose proof (zlen_nonneg ext) as Hextn.
-  pose proof (fv_hlen_ge more) as Hhg. pose proof (fv_hlen_mod8 more) as Hh8.
-  set (HL := fv_hlen more) in *.
-  set (D := HL + zlen ext) in *.
-  assert (HD8 : D mod 8 = 0).
-  { destruct Hext as [(-> & ->)|(-> & name & edata & gap & _ & _ & _ & _ & _ & _ & _ & M)]; [|exact M].
-    unfold D. change (zlen (@nil Z)) with 0. rewrite Z.add_0_r. exact Hh8. }
-  assert (Heo : 0 <= eo < 65536) by (destruct Hext as [(-> & _)|(-> & _)]; lia).
-  assert (Oext : bytes_ok ext = true).
-  { destruct Hext as [(_ & ->)|(_ & name & edata & gap & -> & _ & On & Oe & Og' & _)]; [reflexivity|].
-    unfold ext_bytes. rewrite !bytes_ok_app, On, Oe, Og', le_enc_ok. reflexivity. }
-  assert (AD : align8 D = D) by (apply align8_unique; lia).
-  assert (Lg : zlen g = 16) by (destruct Hg as [-> | ->]; reflexivity).
-  assert (Og : bytes_ok g = true) by (destruct Hg as [-> | ->]; reflexivity).
-  assert (Sg : supported_fv g = true) by (destruct Hg as [-> | ->]; reflexivity).
-  pose proof (zlen_nonneg (flay files)) as Hfl.
-  unfold vol_bytes_x. fold HL.
-  set (len := HL + zlen ext + zlen (flay files) + free) in *.
-  set (ck := fv_cksum zero g len attrs eo reserved rev count bsize more).
-  assert (Hck : 0 <= ck < 65536) by (apply Z.mod_pos_bound; lia).
-  set (hdr := fv_header zero g len attrs ck eo reserved rev count bsize more).
-  set (tail := ext ++ flay files ++ zrepeat 255 free).
-  assert (Lh : zlen hdr = HL) by (apply zlen_fv_header; auto).
-  assert (Lt : zlen tail = zlen ext + zlen (flay files) + free) by (unfold tail; rewrite !zlen_app, zlen_zrepeat by lia; lia).
-  assert (Lv : zlen (hdr ++ tail) = len) by (rewrite zlen_app, Lh, Lt; unfold len; lia).
-  assert (Hfb : Forall (fun f => bytes_ok f = true) files)
-    by (eapply Forall_impl; [|exact Hfiles]; intros a (O & _); exact O).
-  assert (Hf24 : Forall (fun f => 24 <= zlen f) files)
-    by (eapply Forall_impl; [|exact Hfiles]; intros a (_ & L & _); lia).
-  replace (hdr ++ ext ++ flay files ++ zrepeat 255 free) with (hdr ++ tail) by reflexivity.
-  split.
-  { rewrite bytes_ok_app. unfold tail. rewrite !bytes_ok_app, Oext, bytes_ok_flay, bytes_ok_zrepeat by (auto; lia).
-    unfold hdr, fv_header. rewrite !bytes_ok_app, Oz, Og, !le_enc_ok, bytes_ok_blocks_bytes, bytes_ok_zrepeat by lia.
-    cbn [bytes_ok forallb]. unfold byte_ok. lia. }
-  split; [lia|].
-  destruct (Forall_file_ok_at files Hfiles) as (d1 & Hd1).
-  exists (S (S d1)). intros d Hd pol rest off rz Hpol0.
-  destruct d as [|[|d]]; try lia.
-  (* ---- parse ---- *)
-  destruct (fv_header_fields zero g len attrs ck eo reserved rev count bsize more (tail ++ rest) Lz Lg
-              ltac:(lia) Hat Hck Heo Hhl) as (F0 & F16 & F32 & F40 & F44 & F48 & F50 & F52 & F54 & F55 & F56).
-  fold hdr in F0, F16, F32, F40, F44, F48, F50, F52, F54, F55, F56.
-  fold HL in F48.
-  rewrite app_assoc in F0, F16, F32, F40, F44, F48, F50, F52, F54, F55, F56.
-  set (data := (hdr ++ tail) ++ rest) in *.
-  pose proof (zlen_nonneg rest) as Hrest.
-  assert (Ld : zlen data = len + zlen rest) by (unfold data; rewrite zlen_app, Lv; reflexivity).
-  assert (Epol : fv_polarity attrs = 255).
-  { unfold fv_polarity. destruct (Z.land attrs 2048 =? 0) eqn:E; [lia|reflexivity]. }
-  assert (Esp : set_polarity pol 255 = Some 255) by (destruct Hpol0 as [-> | ->]; reflexivity).
-  assert (Eparse : exists kids fs en es,
-     parse_fv (S (S d)) pol data off rz =
-       Ok (NVol (mkVol zero g len 1213613663 attrs HL ck eo reserved rev ((count, bsize) :: more) en es D off rz fs)
-                (hdr ++ tail) kids, 255) /\
-     exists kids', asm_elems kids (255, false) = Ok (kids', (255, false)) /\
-       map node_buf kids' = files /\ map node_attr kids' = map (rd 19 1) files).
-  { rewrite parse_fv_S. unfold fv_body. rewrite Ld.
-    replace (len + zlen rest <? 64) with false by lia.
-    rewrite F0, F16, F32, F40, F44, F48, F50, F52, F54, F55, F56.
-    rewrite parse_blocks_one by (auto; unfold HL, fv_hlen in *; lia). cbn [bind].
-    rewrite Epol, Esp.
-    replace (len + zlen rest <? len) with false by lia.
-    replace (len <? 64) with false by lia.
-    (* the data offset: after the header, or after the extended header, rounded up to 8 *)
-    cbv zeta.
-    set (hb := negb (eo =? 0) && (20 <=? len) && (eo <? len - 20)).
-    assert (Edoff : align8 (if hb then eo + (if hb then rd (eo + 16) 4 data else 0) else HL) = D).
-    { destruct Hext as [(-> & ->)|(-> & name & edata & gap & Ee & Ln & _ & _ & _ & Hes & Hg8 & _)].
-      - unfold hb. change (negb (0 =? 0)) with false. cbn [andb]. cbv iota. unfold D.
-        change (zlen (@nil Z)) with 0. rewrite Z.add_0_r. apply align8_unique; lia.
-      - assert (Le : zlen ext = 16 + 4 + zlen edata + zlen gap).
-        { rewrite Ee. unfold ext_bytes. rewrite !zlen_app, Ln, le4'. lia. }
-        pose proof (zlen_nonneg edata). pose proof (zlen_nonneg gap).
-        replace hb with true by (unfold hb, len; lia).
-        assert (Esz : rd (HL + 16) 4 data = 20 + zlen edata).
-        { unfold data, tail. rewrite <- !app_assoc.
-          rewrite (rd_app_skip hdr _ (HL + 16) 4 HL) by (auto; lia). replace (HL + 16 - HL) with 16 by lia.
-          rewrite Ee. unfold ext_bytes. rewrite <- !app_assoc.
-          rewrite (rd_app_skip name _ 16 4 16) by (auto; lia). change (16 - 16) with 0.
-          rewrite rd_app_here by apply le4'. apply le_dec_enc. change (256 ^ Z.of_nat 4) with (2 ^ 32). lia. }
-        rewrite Esz. apply align8_unique; unfold D; lia. }
-    rewrite Edoff.
-    assert (Esub : sub 0 len data = hdr ++ tail) by (unfold data; apply sub_app_here; exact Lv).
-    rewrite Esub. rewrite Sg. cbn [negb]. cbv iota.
-    assert (LP : zlen (hdr ++ ext) = D) by (rewrite zlen_app, Lh; reflexivity).
-    assert (G1 : D <= zlen (hdr ++ ext) < D + 8) by lia.
-    assert (G2 : zlen (hdr ++ ext) mod 8 = 0) by (rewrite LP; exact HD8).
-    assert (G3 : (length files < Z.to_nat (len + zlen rest) + 1)%nat).
-    { pose proof (zlen_flay_ge files Hf24) as HG. unfold len. unfold bytes in *. lia. }
-    destruct (files_loop_flay d files (Hd1 (S d) ltac:(lia)) free rest (hdr ++ ext) D
-                (Z.to_nat (len + zlen rest) + 1)%nat Hfree ltac:(lia) G1 G2 G3)
-      as (kids & fs & El & kids' & Ek & Em & Eattr).
-    rewrite LP in El.
-    replace ((hdr ++ ext) ++ flay files ++ zrepeat 255 free ++ rest) with ((hdr ++ tail) ++ rest) in El
-      by (unfold tail; rewrite <- !app_assoc; reflexivity).
-    replace (D + zlen (flay files) + free) with len in El by (unfold len, D; lia).
-    fold data in El. rewrite El. cbn [bind].
-    eexists kids, fs, _, _. split; [reflexivity|]. exists kids'. auto. }
-  destruct Eparse as (kids & fs & en & es & Ep & kids' & Ek & Em & Eattr).
-  eexists; eexists. split; [exact Ep|]. cbn [v_length]. split; [symmetry; exact Lv|].
-  (* ---- assemble ---- *)
-  intros ffs. rewrite asm_NVol. cbn [fst snd v_attrs]. rewrite Epol.
-  change (set_polarity 255 255) with (Some 255). cbv beta iota. rewrite Ek. cbn [bind].
-  unfold vol_asm. unfold asm_vol.
-  cbn [v_length v_blocks v_dataoff v_hdrlen v_resizable v_guid].
-  rewrite Sg. cbn [negb]. rewrite andb_false_r. cbv beta iota.
-  rewrite Lv. replace (len <? len) with false by lia. replace (D <? HL) with false by lia. cbv iota.
-  replace (len <? D) with false by (unfold len, D; lia).
-  rewrite slice_ok by (unfold len, D in *; lia). rewrite Z.sub_0_r. cbn [of_opt bind].
-  assert (LP : zlen (hdr ++ ext) = D) by (rewrite zlen_app, Lh; reflexivity).
-  assert (Esl : sub 0 D (hdr ++ tail) = hdr ++ ext).
-  { unfold tail. rewrite app_assoc. apply sub_app_here. exact LP. }
-  rewrite Esl.
-  (* placing the files *)
-  assert (Hpos : Forall (fun k => 0 < zlen (node_buf k)) kids').
-  { rewrite Forall_forall. intros k Hk. apply (in_map node_buf) in Hk. rewrite Em in Hk.
-    rewrite Forall_forall in Hf24. specialize (Hf24 _ Hk). lia. }
-  pose proof (zlen_play_le files D ltac:(lia)) as Hple. rewrite AD, Z.sub_diag in Hple.
-  assert (PP : place_files 255 (if rz then None else Some len) (hdr ++ ext) (zlen (hdr ++ ext)) kids' =
-               Ok ((hdr ++ ext) ++ play (zlen (hdr ++ ext)) (map node_buf kids'))).
-  { apply place_files_play; auto.
-    - rewrite LP, Em, AD. exact Hal.
-    - rewrite Em. exact Eattr.
-    - rewrite LP, Em. destruct rz; [exact I|]. unfold len, D in *. lia. }
-  rewrite LP, Em in PP. rewrite PP. cbn [bind].
-  set (b1 := (hdr ++ ext) ++ play D files).
-  assert (Lb1 : zlen b1 = D + zlen (play D files)) by (unfold b1; rewrite zlen_app, LP; reflexivity).
-  pose proof (zlen_nonneg (play D files)) as Hpl.
-  replace ((len <? zlen b1) && negb rz) with false by (unfold len, D in *; lia).
-  replace (len <? zlen b1) with false by (unfold len, D in *; lia). cbn [bind].
-  (* erased fill: back to the original bytes *)
-  assert (Eb2 : (if zlen b1 <? len then b1 ++ zrepeat 255 (len - zlen b1) else b1) = hdr ++ tail).
-  { pose proof (play_flay files (hdr ++ ext) free Hfree) as PF. rewrite LP in PF.
-    rewrite AD, Z.sub_diag in PF. change (zrepeat 255 0) with (@nil Z) in PF.
-    cbn [app] in PF. fold b1 in PF.
-    replace (D + zlen (flay files) + free) with len in PF by (unfold len, D; lia).
-    replace ((hdr ++ ext) ++ flay files ++ zrepeat 255 free) with (hdr ++ tail) in PF
-      by (unfold tail; rewrite <- !app_assoc; reflexivity).
-    rewrite PF. destruct (zlen b1 <? len) eqn:E; [reflexivity|].
-    replace (len - zlen b1) with 0 by (unfold len, D in *; lia). change (zrepeat 255 0) with (@nil Z). rewrite app_nil_r. reflexivity. }
-  rewrite Eb2. rewrite Lv.
-  replace (len <? 40) with false by (unfold len; lia). replace (len <? 60) with false by (unfold len; lia).
-  change (false && bytes_eqb g FFS2) with false. cbv iota.
-  (* the three header writes *)
-  set (A32 := zero ++ g).
-  set (A50 := A32 ++ le_enc 8 len ++ [95; 70; 86; 72] ++ le_enc 4 attrs ++ le_enc 2 HL).
-  set (A56 := A50 ++ le_enc 2 ck ++ le_enc 2 eo ++ [reserved; rev]).
-  set (R56 := le_enc 4 bsize ++ blocks_bytes more ++ zrepeat 0 8 ++ tail).
-  assert (L32 : zlen A32 = 32) by (unfold A32; rewrite zlen_app, Lz, Lg; reflexivity).
-  assert (L50 : zlen A50 = 50) by (unfold A50; rewrite !zlen_app, L32, le8', le4', le2'; reflexivity).
-  assert (L56 : zlen A56 = 56) by (unfold A56; rewrite !zlen_app, L50, !le2'; reflexivity).
-  assert (E32 : hdr ++ tail = A32 ++ le_enc 8 len ++
-                  ([95; 70; 86; 72] ++ le_enc 4 attrs ++ le_enc 2 HL ++ le_enc 2 ck ++ le_enc 2 eo ++
-                   [reserved; rev] ++ le_enc 4 count ++ R56)).
-  { unfold hdr, fv_header, A32, R56. rewrite <- !app_assoc. reflexivity. }
-  assert (E56 : hdr ++ tail = A56 ++ le_enc 4 count ++ R56).
-  { unfold hdr, fv_header, A56, A50, A32, R56. rewrite <- !app_assoc. reflexivity. }
-  assert (E50 : forall c, fv_header zero g len attrs c eo reserved rev count bsize more ++ tail =
-                          A50 ++ le_enc 2 c ++ (le_enc 2 eo ++ [reserved; rev] ++ le_enc 4 count ++ R56)).
-  { intros c. unfold fv_header, A50, A32, R56. rewrite <- !app_assoc. reflexivity. }
-  assert (S32 : splice 32 (le_enc 8 len) (hdr ++ tail) = hdr ++ tail).
-  { rewrite E32 at 1. rewrite <- L32. rewrite splice_mid by reflexivity. symmetry. exact E32. }
-  rewrite S32. rewrite ?Lv. replace (len <? 60) with false by (unfold len; lia). cbv beta iota.
-  assert (S56 : splice 56 (le_enc 4 count) (hdr ++ tail) = hdr ++ tail).
-  { rewrite E56 at 1. rewrite <- L56. rewrite splice_mid by reflexivity. symmetry. exact E56. }
-  rewrite S56.
-  assert (S50 : splice 50 [0; 0] (hdr ++ tail) =
-                fv_header zero g len attrs 0 eo reserved rev count bsize more ++ tail).
-  { unfold hdr. rewrite (E50 ck), (E50 0). rewrite <- L50.
-    change [0; 0] with (le_enc 2 0) at 1. apply splice_mid. rewrite !le2'. reflexivity. }
-  rewrite S50.
-  set (hdr0 := fv_header zero g len attrs 0 eo reserved rev count bsize more).
-  assert (Lh0 : zlen hdr0 = HL) by (apply zlen_fv_header; auto).
-  rewrite slice_ok by (rewrite ?zlen_app, ?Lh0; pose proof (zlen_nonneg tail); lia).
-  rewrite Z.sub_0_r.
-  assert (Esl0 : sub 0 HL (hdr0 ++ tail) = hdr0) by (apply sub_app_here; exact Lh0).
-  rewrite Esl0.
-  unfold HL at 1. rewrite fv_hlen_even. cbn [negb]. cbv iota.
-  change ((0 - sum16 hdr0) mod 65536) with ck.
-  assert (S50' : splice 50 (le_enc 2 ck) (hdr0 ++ tail) = hdr ++ tail).
-  { unfold hdr0, hdr. rewrite (E50 0), (E50 ck). rewrite <- L50. apply splice_mid. rewrite !le2'. reflexivity. }
-  rewrite S50'. cbn [bind]. cbv beta iota. cbn [bind fst snd].
-  eexists; eexists. split; [reflexivity|exact Epol].
-Qed.
-
-Theorem vol_ok_files zero g attrs reserved rev count bsize files free :
-  zlen zero = 16 -> bytes_ok zero = true -> (g = FFS2 \/ g = FFS3) ->
-  0 <= attrs < 2 ^ 32 -> Z.land attrs 2048 <> 0 ->
-  0 <= reserved < 256 -> 0 <= rev < 256 ->
-  0 <= count < 2 ^ 32 -> 0 <= bsize < 2 ^ 32 -> (count =? 0) && (bsize =? 0) = false ->
-  Forall file_ok files -> files_aligned 72 files = true -> 0 <= free ->
-  72 + zlen (flay files) + free < 2 ^ 64 ->
-  vol_ok (vol_bytes zero g attrs reserved rev count bsize files free).
-Proof.
-  intros. unfold vol_bytes. apply vol_ok_files_x; auto.
-  - reflexivity.
-  - left; split; reflexivity.
-Qed.
-
-
 (* ---------- files in the FFSv3 large form (32-byte header, 64-bit size) ---------- *)
 
 Lemma zlen_raw_file_large g ckh ckf t attr state body : zlen g = 16 ->
@@ -1617,6 +1395,610 @@ Proof.
     split; [lia|]. split; [symmetry; exact F19'|].
     eexists; eexists. split; [apply Easm; reflexivity|reflexivity].
 Qed.
+
+
+(* ====================================================================================== *)
+(* Files rebuilt from their sections whose size reaches 16 MiB (FFSv3 large form).  Assembling
+   such a file raises the "use FFSv3" flag of the enclosing volume; the flag is only ever
+   accumulated, so everything proved from the cleared flag carries over ([asm_flag]). *)
+
+Definition lift {A} (fl : bool) (o : outcome (A * ast)) : outcome (A * ast) :=
+  match o with
+  | Ok (a, (p, f)) => Ok (a, (p, fl || f))
+  | Err e => Err e
+  | Panic s => Panic s
+  | Fuel => Fuel
+  end.
+
+Ltac crush_flag :=
+  repeat (cbn [bind lift];
+          match goal with
+          | |- context [match ?x with _ => _ end] =>
+            lazymatch x with
+            | context [lift] => fail
+            | _ => destruct x eqn:?
+            end
+          | |- context [bind ?x _] =>
+            lazymatch x with
+            | context [lift] => fail
+            | context [bind] => fail
+            | _ => destruct x eqn:?
+            end
+          end);
+  cbn [bind lift]; rewrite ?orb_false_r; try reflexivity.
+
+Lemma sec_asm_flag h buf kids pol fl :
+  sec_asm enc s2u h buf kids (pol, fl) = lift fl (sec_asm enc s2u h buf kids (pol, false)).
+Proof. unfold sec_asm. crush_flag. Qed.
+
+Lemma file_asm_flag h buf kids pol fl :
+  file_asm h buf kids (pol, fl) = lift fl (file_asm h buf kids (pol, false)).
+Proof. unfold file_asm. crush_flag. Qed.
+
+Lemma lift_lift {A} a b (o : outcome (A * ast)) : lift a (lift b o) = lift (a || b) o.
+Proof. destruct o as [[x [p f]]| | |]; cbn [lift]; try reflexivity. rewrite orb_assoc. reflexivity. Qed.
+
+Fixpoint asm_flag (n : node) {struct n} : forall pol fl,
+  asm n (pol, fl) = lift fl (asm n (pol, false)).
+Proof.
+  destruct n as [h buf kids|h buf kids|h buf kids|off b]; intros pol fl.
+  - rewrite !asm_NSec.
+    assert (K : forall pol fl, asm_elems kids (pol, fl) = lift fl (asm_elems kids (pol, false))).
+    { clear pol fl. induction kids as [|x r IH]; intros pol fl;
+        [cbn [Ffs.asm_elems lift]; rewrite orb_false_r; reflexivity|].
+      cbn [Ffs.asm_elems]. rewrite (asm_flag x pol fl).
+      destruct (asm x (pol, false)) as [[x' [p1 f1]]| | |]; cbn [lift bind]; try reflexivity.
+      rewrite (IH p1 (fl || f1)), (IH p1 f1).
+      destruct (asm_elems r (p1, false)) as [[r' [p2 f2]]| | |]; cbn [lift bind]; try reflexivity.
+      rewrite orb_assoc. reflexivity. }
+    rewrite (K pol fl).
+    destruct (asm_elems kids (pol, false)) as [[k' [p1 f1]]| | |]; cbn [lift bind]; try reflexivity.
+    rewrite (sec_asm_flag h buf k' p1 (fl || f1)), (sec_asm_flag h buf k' p1 f1), lift_lift. reflexivity.
+  - rewrite !asm_NFile.
+    assert (K : forall pol fl, asm_elems kids (pol, fl) = lift fl (asm_elems kids (pol, false))).
+    { clear pol fl. induction kids as [|x r IH]; intros pol fl;
+        [cbn [Ffs.asm_elems lift]; rewrite orb_false_r; reflexivity|].
+      cbn [Ffs.asm_elems]. rewrite (asm_flag x pol fl).
+      destruct (asm x (pol, false)) as [[x' [p1 f1]]| | |]; cbn [lift bind]; try reflexivity.
+      rewrite (IH p1 (fl || f1)), (IH p1 f1).
+      destruct (asm_elems r (p1, false)) as [[r' [p2 f2]]| | |]; cbn [lift bind]; try reflexivity.
+      rewrite orb_assoc. reflexivity. }
+    rewrite (K pol fl).
+    destruct (asm_elems kids (pol, false)) as [[k' [p1 f1]]| | |]; cbn [lift bind]; try reflexivity.
+    rewrite (file_asm_flag h buf k' p1 (fl || f1)), (file_asm_flag h buf k' p1 f1), lift_lift. reflexivity.
+  - rewrite !asm_NVol. cbn [fst snd].
+    destruct (set_polarity pol (fv_polarity (v_attrs h))) as [pol0|]; [|reflexivity].
+    destruct (asm_elems kids (pol0, false)) as [[k' st1]| | |]; cbn [lift bind]; try reflexivity.
+    destruct (vol_asm h buf k' st1) as [[n' [p2 f2]]| | |]; cbn [lift bind fst]; try reflexivity.
+    rewrite orb_false_r. reflexivity.
+  - cbn [Ffs.asm lift]. rewrite orb_false_r. reflexivity.
+Qed.
+
+Lemma asm_elems_flag kids pol fl :
+  asm_elems kids (pol, fl) = lift fl (asm_elems kids (pol, false)).
+Proof.
+  revert pol fl. induction kids as [|x r IH]; intros pol fl;
+    [cbn [Ffs.asm_elems lift]; rewrite orb_false_r; reflexivity|].
+  cbn [Ffs.asm_elems]. rewrite (asm_flag x pol fl).
+  destruct (asm x (pol, false)) as [[x' [p1 f1]]| | |]; cbn [lift bind]; try reflexivity.
+  rewrite (IH p1 (fl || f1)), (IH p1 f1).
+  destruct (asm_elems r (p1, false)) as [[r' [p2 f2]]| | |]; cbn [lift bind]; try reflexivity.
+  rewrite orb_assoc. reflexivity.
+Qed.
+
+
+(* ---------- R8L: files rebuilt from their sections, 16 MiB and more ---------- *)
+
+Definition file_okL (fb : bytes) : Prop :=
+  bytes_ok fb = true /\ 32 <= zlen fb /\
+  exists d0, forall d, (d0 <= d)%nat -> forall rest,
+    exists h kids, parse_file d 255 (fb ++ rest) = Ok (Some (NFile h fb kids), 255) /\
+      f_ext h = zlen fb /\ f_attr h = rd 19 1 fb /\
+      exists h' kids', asm (NFile h fb kids) (255, false) = Ok (NFile h' fb kids', (255, true)) /\
+                       f_attr h' = f_attr h.
+
+Lemma byte_lor_1 a : 0 <= a < 256 -> Z.land a 1 = 1 -> Z.lor a 1 = a.
+Proof.
+  intros Ha H1.
+  assert (F : forallb (fun n => negb (Z.land (Z.of_nat n) 1 =? 1) || (Z.lor (Z.of_nat n) 1 =? Z.of_nat n))
+                      (seq 0 256) = true) by (vm_compute; reflexivity).
+  rewrite forallb_forall in F. specialize (F (Z.to_nat a)).
+  rewrite Z2Nat.id in F by lia. rewrite H1 in F. change (1 =? 1) with true in F. cbn [negb orb] in F.
+  apply Z.eqb_eq. apply F. apply in_seq. lia.
+Qed.
+
+Lemma file_bytes_large_raw g t attr state body :
+  file_bytes_large g t attr state body =
+  raw_file_bytes_large g
+    ((0 - (sum_list g + t + attr + sum_list (le_enc 3 16777215) + sum_list (le_enc 8 (32 + zlen body)))) mod 256)
+    (if attr_checksum attr then (0 - sum_list body) mod 256 else 170) t attr state body.
+Proof. reflexivity. Qed.
+
+Lemma checksum_and_assemble_large_id h g t attr state data :
+  zlen g = 16 -> 0 <= attr < 256 -> Z.land attr 1 = 1 -> 16777215 <= 32 + zlen data ->
+  f_guid h = g -> f_type h = t -> f_state h = state ->
+  f_ckh h = (0 - (sum_list g + t + attr + sum_list (le_enc 3 16777215) +
+                  sum_list (le_enc 8 (32 + zlen data)))) mod 256 ->
+  snd (checksum_and_assemble h (32 + zlen data) attr data) = file_bytes_large g t attr state data /\
+  f_attr (fst (checksum_and_assemble h (32 + zlen data) attr data)) = attr.
+Proof.
+  intros Lg Ha Hl Hn Eg Et Es Eh. pose proof (zlen_nonneg data).
+  unfold checksum_and_assemble. cbn [fst snd f_attr]. split; [|reflexivity].
+  unfold attr_large. rewrite Hl. change (negb (1 =? 0)) with true. cbv iota.
+  unfold write3. replace (16777215 <=? 32 + zlen data) with true by lia.
+  rewrite Eg, Et, Es.
+  set (sz := le_enc 3 16777215). set (xs := le_enc 8 (32 + zlen data)).
+  assert (F32 : zfirstn 32 (file_header_bytes g (f_ckh h) (f_ckf h) t attr 16777215 state (32 + zlen data) true)
+                = g ++ [f_ckh h; f_ckf h; t; attr] ++ sz ++ [state] ++ xs).
+  { unfold file_header_bytes. fold sz xs.
+    assert (L : zlen (g ++ [f_ckh h; f_ckf h; t; attr] ++ sz ++ [state] ++ xs) = 32).
+    { rewrite !zlen_app, Lg. unfold sz, xs. rewrite le3, le8'. reflexivity. }
+    rewrite <- L. rewrite <- (app_nil_r (g ++ [f_ckh h; f_ckf h; t; attr] ++ sz ++ [state] ++ xs)) at 2.
+    apply zfirstn_app_exact. }
+  rewrite F32. unfold sum8. rewrite !sum_list_app.
+  change (sum_list [f_ckh h; f_ckf h; t; attr]) with (f_ckh h + (f_ckf h + (t + (attr + 0)))).
+  change (sum_list [state]) with (state + 0).
+  set (S := sum_list g + t + attr + sum_list sz + sum_list xs).
+  replace (sum_list g + (f_ckh h + (f_ckf h + (t + (attr + 0))) + (sum_list sz + (state + 0 + sum_list xs))))
+    with (S + f_ckh h + f_ckf h + state) by (unfold S; lia).
+  rewrite (ck_fix S (f_ckh h) (f_ckf h) state) by (rewrite Eh; reflexivity).
+  rewrite file_bytes_large_raw. unfold raw_file_bytes_large, file_header_bytes. fold sz xs. rewrite Eh. fold S.
+  replace ((0 - sum_list data mod 256) mod 256) with ((0 - sum_list data) mod 256).
+  - rewrite <- !app_assoc. reflexivity.
+  - rewrite (Zminus_mod 0 (sum_list data mod 256)), Z.mod_mod by lia. rewrite <- Zminus_mod. reflexivity.
+Qed.
+
+Lemma file_okL_sections g t attr state secs :
+  zlen g = 16 -> bytes_ok g = true -> 0 <= t < 256 -> 0 <= attr < 256 -> 0 <= state < 256 ->
+  Z.land attr 1 = 1 -> supported_file t = true -> secs <> [] -> Forall sec_ok secs ->
+  16777215 <= 24 + zlen (sections_bytes secs) -> 32 + zlen (sections_bytes secs) < 2 ^ 64 - 1 ->
+  file_okL (file_bytes_large g t attr state (sections_bytes secs)).
+Proof.
+  intros Lg Og Ht Ha Hs Hl Hsup Hne Hok Hbig Hn.
+  rewrite sections_bytes_lay in *. set (body := lay secs) in *.
+  pose proof (zlen_nonneg body) as Hbn.
+  assert (Obody : bytes_ok body = true).
+  { apply bytes_ok_lay. eapply Forall_impl; [|exact Hok]. intros a (O & _); exact O. }
+  assert (Hnv : (t =? 1) && bytes_eqb g NVAR_GUID = false).
+  { destruct (t =? 1) eqn:E; [|reflexivity]. apply Z.eqb_eq in E. subst t. discriminate. }
+  rewrite file_bytes_large_raw.
+  set (ckh := (0 - (sum_list g + t + attr + sum_list (le_enc 3 16777215) +
+                    sum_list (le_enc 8 (32 + zlen body)))) mod 256).
+  set (ckf := if attr_checksum attr then (0 - sum_list body) mod 256 else 170).
+  assert (Hckh : 0 <= ckh < 256) by (apply Z.mod_pos_bound; lia).
+  assert (Hckf : 0 <= ckf < 256) by (unfold ckf; destruct (attr_checksum attr); [apply Z.mod_pos_bound|]; lia).
+  set (fb := raw_file_bytes_large g ckh ckf t attr state body).
+  assert (Lf : zlen fb = 32 + zlen body) by (apply zlen_raw_file_large; auto).
+  split; [apply bytes_ok_raw_file_large; auto|]. split; [lia|].
+  destruct (Forall_sec_ok_at secs Hok) as (d1 & Hd1).
+  exists (S d1). intros d Hd rest. destruct d as [|d]; [lia|].
+  rewrite parse_file_S.
+  destruct (raw_file_large_fields g ckh ckf t attr state body rest Lg ltac:(lia))
+    as (F0 & F16 & F17 & F18 & F19 & F20 & F23 & F24).
+  fold fb in F0, F16, F17, F18, F19, F20, F23, F24.
+  destruct (raw_file_large_fields g ckh ckf t attr state body [] Lg ltac:(lia)) as (_ & _ & _ & _ & F19' & _).
+  fold fb in F19'. rewrite app_nil_r in F19'.
+  pose proof (zlen_nonneg rest) as Hr.
+  unfold file_body. rewrite !zlen_app, Lf.
+  replace (32 + zlen body + zlen rest <? 24) with false by lia.
+  rewrite F0, F16, F17, F18, F19, F20, F23, F24.
+  change (16777215 =? 16777215) with true. cbv iota.
+  replace (32 + zlen body + zlen rest <? 32) with false by lia. cbn [bind andb].
+  replace (32 + zlen body =? U64 - 1) with false by (unfold U64; lia).
+  replace (32 + zlen body + zlen rest <? 32 + zlen body) with false by lia.
+  replace (32 + zlen body <? 32) with false by lia.
+  rewrite Hnv. cbn [bind].
+  rewrite <- Lf. rewrite (sub_app_here fb rest (zlen fb) eq_refl). rewrite Lf.
+  rewrite Hsup. cbn [negb].
+  (* the file buffer is a 32-byte header followed by the laid-out sections *)
+  set (hdr := g ++ [ckh; ckf; t; attr] ++ le_enc 3 16777215 ++ [state] ++ le_enc 8 (32 + zlen body)).
+  assert (Lh : zlen hdr = 32) by (unfold hdr; rewrite !zlen_app, Lg, le3, le8'; reflexivity).
+  assert (Efb : fb = hdr ++ lay secs).
+  { unfold fb, raw_file_bytes_large, hdr. fold body. rewrite <- !app_assoc. reflexivity. }
+  assert (Hfuel : (length secs < Z.to_nat (32 + zlen body) + 1)%nat).
+  { assert (G : 4 * Z.of_nat (length secs) <= zlen (lay secs)).
+    { apply zlen_lay_ge. eapply Forall_impl; [|exact Hok]. intros a (_ & L & _). lia. }
+    fold body in G. lia. }
+  destruct (sections_loop_lay d secs (Hd1 d ltac:(lia)) hdr (Z.to_nat (32 + zlen body) + 1)%nat 0)
+    as (kids & El & kids' & Ek & Em); [rewrite Lh; reflexivity | exact Hfuel |].
+  rewrite Lh in El. rewrite Efb. rewrite El. cbn [bind]. rewrite <- Efb.
+  eexists; eexists. split; [reflexivity|]. cbn [f_ext f_attr].
+  split; [lia|]. split; [symmetry; exact F19'|].
+  rewrite asm_NFile. rewrite Ek. cbn [bind]. unfold file_asm. cbn [f_nvar].
+  destruct kids' as [|k0 kr] eqn:Ekids.
+  { exfalso. cbn in Em. apply Hne. symmetry. exact Em. }
+  rewrite <- Ekids in *. rewrite Em.
+  replace (join4 [] secs) with body by (symmetry; apply sections_bytes_lay).
+  destruct kids' as [|k0' kr']; [discriminate|].
+  unfold set_size. replace (16777215 <=? 24 + zlen body) with true by lia.
+  unfold set_large. cbn [f_attr]. rewrite byte_lor_1 by auto.
+  replace (24 + zlen body + 8) with (32 + zlen body) by lia.
+  match goal with |- context [checksum_and_assemble ?h _ _ _] =>
+    destruct (checksum_and_assemble_large_id h g t attr state body Lg Ha Hl ltac:(lia) eq_refl eq_refl eq_refl eq_refl)
+      as [E1 E2];
+    destruct (checksum_and_assemble h (32 + zlen body) attr body) as [h' nb] eqn:G end.
+  cbn [fst snd] in E1, E2. rewrite E1. rewrite file_bytes_large_raw. fold ckh ckf. fold fb.
+  replace (16777215 <? 32 + zlen body) with true by lia. cbn [orb].
+  eexists; eexists. split; [reflexivity|]. exact E2.
+Qed.
+
+
+
+(* ---------- files with a given resulting "use FFSv3" flag ---------- *)
+
+Definition file_ok_b (b : bool) (fb : bytes) : Prop :=
+  bytes_ok fb = true /\ 24 <= zlen fb /\
+  exists d0, forall d, (d0 <= d)%nat -> forall rest,
+    exists h kids, parse_file d 255 (fb ++ rest) = Ok (Some (NFile h fb kids), 255) /\
+      f_ext h = zlen fb /\ f_attr h = rd 19 1 fb /\
+      exists h' kids', asm (NFile h fb kids) (255, false) = Ok (NFile h' fb kids', (255, b)) /\
+                       f_attr h' = f_attr h.
+
+Definition file_ok_at_b (b : bool) (d : nat) (fb : bytes) : Prop :=
+  bytes_ok fb = true /\ 24 <= zlen fb /\
+  forall rest,
+    exists h kids, parse_file d 255 (fb ++ rest) = Ok (Some (NFile h fb kids), 255) /\
+      f_ext h = zlen fb /\ f_attr h = rd 19 1 fb /\
+      exists h' kids', asm (NFile h fb kids) (255, false) = Ok (NFile h' fb kids', (255, b)) /\
+                       f_attr h' = f_attr h.
+
+Lemma file_ok_b_false fb : file_ok fb -> file_ok_b false fb.
+Proof. intros H. exact H. Qed.
+
+Lemma file_okL_b_true fb : file_okL fb -> file_ok_b true fb.
+Proof.
+  intros (O & L & d0 & H). split; [exact O|]. split; [lia|]. exists d0. exact H.
+Qed.
+
+Lemma Forall2_file_ok_at flags files : Forall2 file_ok_b flags files ->
+  exists d0, forall d, (d0 <= d)%nat -> Forall2 (fun b f => file_ok_at_b b d f) flags files.
+Proof.
+  induction 1 as [|b f bs r Hf Hr (d1 & IH)].
+  - exists 0%nat. intros; constructor.
+  - destruct Hf as (Ob & Hl & d2 & H2). exists (Nat.max d1 d2). intros d Hd.
+    constructor; [|apply IH; lia]. split; [exact Ob|]. split; [exact Hl|].
+    intros rest. apply H2. lia.
+Qed.
+
+Lemma files_loop_flay_gen d flags files : Forall2 (fun b f => file_ok_at_b b (S d) f) flags files ->
+  forall free rest P u n, 0 <= free -> 0 <= u -> u <= zlen P < u + 8 -> (zlen P) mod 8 = 0 ->
+  (length files < n)%nat ->
+  exists kids fs,
+    files_loop (parse_file (S d)) n (P ++ flay files ++ zrepeat 255 free ++ rest)
+               (zlen P + zlen (flay files) + free) 255 u = Ok (kids, 255, fs) /\
+    exists kids', asm_elems kids (255, false) = Ok (kids', (255, existsb (fun b => b) flags)) /\
+      map node_buf kids' = files /\ map node_attr kids' = map (rd 19 1) files.
+Proof.
+  induction 1 as [|b f bs r Hf Hr IH]; intros free rest P u n Hfree Hu HP HM Hn.
+  - destruct n as [|n]; [cbn in Hn; lia|]. cbn [flay app]. change (zlen (@nil Z)) with 0.
+    cbn [files_loop].
+    rewrite (align8_unique u (zlen P)) by lia.
+    destruct (u + 24 <=? zlen P + 0 + free) eqn:E1.
+    + destruct (zlen P + 0 + free <? zlen P + 24) eqn:E2.
+      * exists [], 0. split; [reflexivity|]. exists []. repeat split; reflexivity.
+      * replace (zlen P + 0 + free - zlen P) with free by lia.
+        assert (Es : sub (zlen P) free (P ++ zrepeat 255 free ++ rest) = zrepeat 255 free).
+        { rewrite (sub_app_skip P _ (zlen P) free (zlen P)) by lia. rewrite Z.sub_diag.
+          apply sub_app_here. apply zlen_zrepeat; lia. }
+        rewrite Es. rewrite parse_free by lia. cbn [bind].
+        eexists [], _. split; [reflexivity|]. exists []. repeat split; reflexivity.
+    + exists [], 0. split; [reflexivity|]. exists []. repeat split; reflexivity.
+  - destruct n as [|n]; [cbn in Hn; lia|]. cbn [length] in Hn.
+    destruct Hf as (Ob & Hl & Hp).
+    pose proof (zlen_nonneg f) as Hfn. destruct (align8_spec (zlen f) Hfn) as [Bf Mf].
+    pose proof (zlen_nonneg (flay r)) as Hrn.
+    rewrite zlen_flay_cons.
+    set (len := zlen P + (align8 (zlen f) + zlen (flay r)) + free).
+    cbn [files_loop].
+    replace (u + 24 <=? len) with true by (unfold len; lia).
+    rewrite (align8_unique u (zlen P)) by lia.
+    replace (len <? zlen P + 24) with false by (unfold len; lia).
+    set (pad := zrepeat 255 (align8 (zlen f) - zlen f)).
+    assert (Lpad : zlen pad = align8 (zlen f) - zlen f) by (apply zlen_zrepeat; lia).
+    assert (Es : sub (zlen P) (len - zlen P) (P ++ flay (f :: r) ++ zrepeat 255 free ++ rest)
+                 = f ++ (pad ++ flay r ++ zrepeat 255 free)).
+    { rewrite (sub_app_skip P _ (zlen P) _ (zlen P)) by lia. rewrite Z.sub_diag.
+      cbn [flay]. fold pad.
+      replace ((f ++ pad ++ flay r) ++ zrepeat 255 free ++ rest)
+        with ((f ++ pad ++ flay r ++ zrepeat 255 free) ++ rest) by (rewrite <- !app_assoc; reflexivity).
+      apply sub_app_here. rewrite !zlen_app, Lpad, zlen_zrepeat by lia. unfold len. lia. }
+    rewrite Es.
+    destruct (Hp (pad ++ flay r ++ zrepeat 255 free)) as (h & ks & Ep & Ee & Eat & h' & ks' & Ea & Eat').
+    rewrite Ep. cbn [bind file_ext]. rewrite Ee. replace (zlen f =? 0) with false by lia.
+    destruct (IH free rest (P ++ f ++ pad) (zlen P + zlen f) n) as (kids & fs & El & kids' & Ek & Em & Eattr);
+      try lia.
+    { rewrite !zlen_app, Lpad. lia. }
+    { rewrite !zlen_app, Lpad. replace (zlen P + (zlen f + (align8 (zlen f) - zlen f)))
+        with (zlen P + align8 (zlen f)) by lia.
+      rewrite Z.add_mod by lia. rewrite HM, Mf. reflexivity. }
+    replace ((P ++ f ++ pad) ++ flay r ++ zrepeat 255 free ++ rest)
+      with (P ++ flay (f :: r) ++ zrepeat 255 free ++ rest) in El
+      by (cbn [flay]; fold pad; rewrite <- !app_assoc; reflexivity).
+    replace (zlen (P ++ f ++ pad) + zlen (flay r) + free) with len in El
+      by (rewrite !zlen_app, Lpad; unfold len; lia).
+    rewrite El. cbn [bind].
+    exists (NFile h f ks :: kids), fs. split; [reflexivity|].
+    cbn [Ffs.asm_elems]. rewrite Ea. cbn [bind]. rewrite (asm_elems_flag kids 255 b), Ek. cbn [lift bind].
+    exists (NFile h' f ks' :: kids'). split; [reflexivity|].
+    cbn [map node_buf node_attr]. rewrite Em, Eattr, Eat', Eat. split; reflexivity.
+Qed.
+
+Lemma Forall2_right {A B} (P : A -> B -> Prop) (Q : B -> Prop) la lb :
+  Forall2 P la lb -> (forall a b, P a b -> Q b) -> Forall Q lb.
+Proof. induction 1; intros H'; constructor; eauto. Qed.
+
+(* ---------- R9: a volume of files ---------- *)
+
+(* the region between the 72-byte header and the first file: nothing (eo = 0), or an extended
+   header at offset 72 followed by the bytes up to the next 8-byte boundary *)
+Definition ext_ok (hl eo : Z) (ext : bytes) : Prop :=
+  (eo = 0 /\ ext = []) \/
+  (exists pre name edata gap, eo = hl + zlen pre /\ ext = pre ++ ext_bytes name edata gap /\
+     bytes_ok pre = true /\ zlen name = 16 /\
+     bytes_ok name = true /\ bytes_ok edata = true /\ bytes_ok gap = true /\
+     20 + zlen edata < 2 ^ 32 /\ zlen gap < 8 /\ eo < 65536 /\ 0 < zlen edata + zlen gap /\
+     (hl + zlen ext) mod 8 = 0).
+
+Theorem vol_ok_files_flags zero g attrs reserved rev count bsize more eo ext flags files free :
+  zlen zero = 16 -> bytes_ok zero = true -> (g = FFS2 \/ g = FFS3) ->
+  0 <= attrs < 2 ^ 32 -> Z.land attrs 2048 <> 0 ->
+  0 <= reserved < 256 -> 0 <= rev < 256 ->
+  0 <= count < 2 ^ 32 -> 0 <= bsize < 2 ^ 32 -> (count =? 0) && (bsize =? 0) = false ->
+  forallb block_ok more = true -> fv_hlen more < 65536 ->
+  ext_ok (fv_hlen more) eo ext ->
+  Forall2 file_ok_b flags files -> (existsb (fun b => b) flags = true -> g = FFS3) ->
+  files_aligned (fv_hlen more + zlen ext) files = true -> 0 <= free ->
+  fv_hlen more + zlen ext + zlen (flay files) + free < 2 ^ 64 ->
+  vol_ok (vol_bytes_x zero g attrs reserved rev count bsize more eo ext files free).
+Proof.
+  intros Lz Oz Hg Hat Hpol Hres Hrev Hc Hs Hnz Hmore Hhl Hext Hfiles Hflag Hal Hfree Hlen.
+  pose proof (zlen_nonneg ext) as Hextn.
+  pose proof (fv_hlen_ge more) as Hhg. pose proof (fv_hlen_mod8 more) as Hh8.
+  set (HL := fv_hlen more) in *.
+  set (D := HL + zlen ext) in *.
+  assert (HD8 : D mod 8 = 0).
+  { destruct Hext as [(-> & ->)|(pre & name & edata & gap & _ & _ & _ & _ & _ & _ & _ & _ & _ & _ & _ & M)]; [|exact M].
+    unfold D. change (zlen (@nil Z)) with 0. rewrite Z.add_0_r. exact Hh8. }
+  assert (Heo : 0 <= eo < 65536).
+  { destruct Hext as [(-> & _)|(pre & name & edata & gap & -> & _ & _ & _ & _ & _ & _ & _ & _ & Heo & _)]; [lia|].
+    pose proof (zlen_nonneg pre). lia. }
+  assert (Oext : bytes_ok ext = true).
+  { destruct Hext as [(_ & ->)|(pre & name & edata & gap & _ & -> & Op & _ & On & Oe & Og' & _)]; [reflexivity|].
+    unfold ext_bytes. rewrite !bytes_ok_app, Op, On, Oe, Og', le_enc_ok. reflexivity. }
+  assert (AD : align8 D = D) by (apply align8_unique; lia).
+  assert (Lg : zlen g = 16) by (destruct Hg as [-> | ->]; reflexivity).
+  assert (Og : bytes_ok g = true) by (destruct Hg as [-> | ->]; reflexivity).
+  assert (Sg : supported_fv g = true) by (destruct Hg as [-> | ->]; reflexivity).
+  pose proof (zlen_nonneg (flay files)) as Hfl.
+  unfold vol_bytes_x. fold HL.
+  set (len := HL + zlen ext + zlen (flay files) + free) in *.
+  set (ck := fv_cksum zero g len attrs eo reserved rev count bsize more).
+  assert (Hck : 0 <= ck < 65536) by (apply Z.mod_pos_bound; lia).
+  set (hdr := fv_header zero g len attrs ck eo reserved rev count bsize more).
+  set (tail := ext ++ flay files ++ zrepeat 255 free).
+  assert (Lh : zlen hdr = HL) by (apply zlen_fv_header; auto).
+  assert (Lt : zlen tail = zlen ext + zlen (flay files) + free) by (unfold tail; rewrite !zlen_app, zlen_zrepeat by lia; lia).
+  assert (Lv : zlen (hdr ++ tail) = len) by (rewrite zlen_app, Lh, Lt; unfold len; lia).
+  assert (Hfb : Forall (fun f => bytes_ok f = true) files)
+    by (eapply Forall2_right; [exact Hfiles|]; intros b0 a (O & _); exact O).
+  assert (Hf24 : Forall (fun f => 24 <= zlen f) files)
+    by (eapply Forall2_right; [exact Hfiles|]; intros b0 a (_ & L & _); lia).
+  replace (hdr ++ ext ++ flay files ++ zrepeat 255 free) with (hdr ++ tail) by reflexivity.
+  split.
+  { rewrite bytes_ok_app. unfold tail. rewrite !bytes_ok_app, Oext, bytes_ok_flay, bytes_ok_zrepeat by (auto; lia).
+    unfold hdr, fv_header. rewrite !bytes_ok_app, Oz, Og, !le_enc_ok, bytes_ok_blocks_bytes, bytes_ok_zrepeat by lia.
+    cbn [bytes_ok forallb]. unfold byte_ok. lia. }
+  split; [lia|].
+  destruct (Forall2_file_ok_at flags files Hfiles) as (d1 & Hd1).
+  exists (S (S d1)). intros d Hd pol rest off rz Hpol0.
+  destruct d as [|[|d]]; try lia.
+  (* ---- parse ---- *)
+  destruct (fv_header_fields zero g len attrs ck eo reserved rev count bsize more (tail ++ rest) Lz Lg
+              ltac:(lia) Hat Hck Heo Hhl) as (F0 & F16 & F32 & F40 & F44 & F48 & F50 & F52 & F54 & F55 & F56).
+  fold hdr in F0, F16, F32, F40, F44, F48, F50, F52, F54, F55, F56.
+  fold HL in F48.
+  rewrite app_assoc in F0, F16, F32, F40, F44, F48, F50, F52, F54, F55, F56.
+  set (data := (hdr ++ tail) ++ rest) in *.
+  pose proof (zlen_nonneg rest) as Hrest.
+  assert (Ld : zlen data = len + zlen rest) by (unfold data; rewrite zlen_app, Lv; reflexivity).
+  assert (Epol : fv_polarity attrs = 255).
+  { unfold fv_polarity. destruct (Z.land attrs 2048 =? 0) eqn:E; [lia|reflexivity]. }
+  assert (Esp : set_polarity pol 255 = Some 255) by (destruct Hpol0 as [-> | ->]; reflexivity).
+  assert (Eparse : exists kids fs en es,
+     parse_fv (S (S d)) pol data off rz =
+       Ok (NVol (mkVol zero g len 1213613663 attrs HL ck eo reserved rev ((count, bsize) :: more) en es D off rz fs)
+                (hdr ++ tail) kids, 255) /\
+     exists kids', asm_elems kids (255, false) = Ok (kids', (255, existsb (fun b => b) flags)) /\
+       map node_buf kids' = files /\ map node_attr kids' = map (rd 19 1) files).
+  { rewrite parse_fv_S. unfold fv_body. rewrite Ld.
+    replace (len + zlen rest <? 64) with false by lia.
+    rewrite F0, F16, F32, F40, F44, F48, F50, F52, F54, F55, F56.
+    rewrite parse_blocks_one by (auto; unfold HL, fv_hlen in *; lia). cbn [bind].
+    rewrite Epol, Esp.
+    replace (len + zlen rest <? len) with false by lia.
+    replace (len <? 64) with false by lia.
+    (* the data offset: after the header, or after the extended header, rounded up to 8 *)
+    cbv zeta.
+    set (hb := negb (eo =? 0) && (20 <=? len) && (eo <? len - 20)).
+    assert (Edoff : align8 (if hb then eo + (if hb then rd (eo + 16) 4 data else 0) else HL) = D).
+    { destruct Hext as [(-> & ->)|(pre & name & edata & gap & Eeo & Ee & _ & Ln & _ & _ & _ & Hes & Hg8 & _ & Hpos & _)].
+      - unfold hb. change (negb (0 =? 0)) with false. cbn [andb]. cbv iota. unfold D.
+        change (zlen (@nil Z)) with 0. rewrite Z.add_0_r. apply align8_unique; lia.
+      - assert (Le : zlen ext = zlen pre + 16 + 4 + zlen edata + zlen gap).
+        { rewrite Ee. unfold ext_bytes. rewrite !zlen_app, Ln, le4'. lia. }
+        pose proof (zlen_nonneg edata). pose proof (zlen_nonneg gap). pose proof (zlen_nonneg pre).
+        replace hb with true by (unfold hb, len; lia).
+        assert (Esz : rd (eo + 16) 4 data = 20 + zlen edata).
+        { unfold data, tail. rewrite <- !app_assoc.
+          rewrite (rd_app_skip hdr _ (eo + 16) 4 HL) by (auto; lia).
+          replace (eo + 16 - HL) with (zlen pre + 16) by lia.
+          rewrite Ee. unfold ext_bytes. rewrite <- !app_assoc.
+          rewrite (rd_app_skip pre _ (zlen pre + 16) 4 (zlen pre)) by (auto; lia).
+          replace (zlen pre + 16 - zlen pre) with 16 by lia.
+          rewrite (rd_app_skip name _ 16 4 16) by (auto; lia). change (16 - 16) with 0.
+          rewrite rd_app_here by apply le4'. apply le_dec_enc. change (256 ^ Z.of_nat 4) with (2 ^ 32). lia. }
+        rewrite Esz. apply align8_unique; unfold D; lia. }
+    rewrite Edoff.
+    assert (Esub : sub 0 len data = hdr ++ tail) by (unfold data; apply sub_app_here; exact Lv).
+    rewrite Esub. rewrite Sg. cbn [negb]. cbv iota.
+    assert (LP : zlen (hdr ++ ext) = D) by (rewrite zlen_app, Lh; reflexivity).
+    assert (G1 : D <= zlen (hdr ++ ext) < D + 8) by lia.
+    assert (G2 : zlen (hdr ++ ext) mod 8 = 0) by (rewrite LP; exact HD8).
+    assert (G3 : (length files < Z.to_nat (len + zlen rest) + 1)%nat).
+    { pose proof (zlen_flay_ge files Hf24) as HG. unfold len. unfold bytes in *. lia. }
+    destruct (files_loop_flay_gen d flags files (Hd1 (S d) ltac:(lia)) free rest (hdr ++ ext) D
+                (Z.to_nat (len + zlen rest) + 1)%nat Hfree ltac:(lia) G1 G2 G3)
+      as (kids & fs & El & kids' & Ek & Em & Eattr).
+    rewrite LP in El.
+    replace ((hdr ++ ext) ++ flay files ++ zrepeat 255 free ++ rest) with ((hdr ++ tail) ++ rest) in El
+      by (unfold tail; rewrite <- !app_assoc; reflexivity).
+    replace (D + zlen (flay files) + free) with len in El by (unfold len, D; lia).
+    fold data in El. rewrite El. cbn [bind].
+    eexists kids, fs, _, _. split; [reflexivity|]. exists kids'. auto. }
+  destruct Eparse as (kids & fs & en & es & Ep & kids' & Ek & Em & Eattr).
+  eexists; eexists. split; [exact Ep|]. cbn [v_length]. split; [symmetry; exact Lv|].
+  (* ---- assemble ---- *)
+  intros ffs. rewrite asm_NVol. cbn [fst snd v_attrs]. rewrite Epol.
+  change (set_polarity 255 255) with (Some 255). cbv beta iota. rewrite Ek. cbn [bind].
+  unfold vol_asm. unfold asm_vol.
+  cbn [v_length v_blocks v_dataoff v_hdrlen v_resizable v_guid].
+  rewrite Sg. cbn [negb]. rewrite andb_false_r. cbv beta iota.
+  rewrite Lv. replace (len <? len) with false by lia. replace (D <? HL) with false by lia. cbv iota.
+  replace (len <? D) with false by (unfold len, D; lia).
+  rewrite slice_ok by (unfold len, D in *; lia). rewrite Z.sub_0_r. cbn [of_opt bind].
+  assert (LP : zlen (hdr ++ ext) = D) by (rewrite zlen_app, Lh; reflexivity).
+  assert (Esl : sub 0 D (hdr ++ tail) = hdr ++ ext).
+  { unfold tail. rewrite app_assoc. apply sub_app_here. exact LP. }
+  rewrite Esl.
+  (* placing the files *)
+  assert (Hpos : Forall (fun k => 0 < zlen (node_buf k)) kids').
+  { rewrite Forall_forall. intros k Hk. apply (in_map node_buf) in Hk. rewrite Em in Hk.
+    rewrite Forall_forall in Hf24. specialize (Hf24 _ Hk). lia. }
+  pose proof (zlen_play_le files D ltac:(lia)) as Hple. rewrite AD, Z.sub_diag in Hple.
+  assert (PP : place_files 255 (if rz then None else Some len) (hdr ++ ext) (zlen (hdr ++ ext)) kids' =
+               Ok ((hdr ++ ext) ++ play (zlen (hdr ++ ext)) (map node_buf kids'))).
+  { apply place_files_play; auto.
+    - rewrite LP, Em, AD. exact Hal.
+    - rewrite Em. exact Eattr.
+    - rewrite LP, Em. destruct rz; [exact I|]. unfold len, D in *. lia. }
+  rewrite LP, Em in PP. rewrite PP. cbn [bind].
+  set (b1 := (hdr ++ ext) ++ play D files).
+  assert (Lb1 : zlen b1 = D + zlen (play D files)) by (unfold b1; rewrite zlen_app, LP; reflexivity).
+  pose proof (zlen_nonneg (play D files)) as Hpl.
+  replace ((len <? zlen b1) && negb rz) with false by (unfold len, D in *; lia).
+  replace (len <? zlen b1) with false by (unfold len, D in *; lia). cbn [bind].
+  (* erased fill: back to the original bytes *)
+  assert (Eb2 : (if zlen b1 <? len then b1 ++ zrepeat 255 (len - zlen b1) else b1) = hdr ++ tail).
+  { pose proof (play_flay files (hdr ++ ext) free Hfree) as PF. rewrite LP in PF.
+    rewrite AD, Z.sub_diag in PF. change (zrepeat 255 0) with (@nil Z) in PF.
+    cbn [app] in PF. fold b1 in PF.
+    replace (D + zlen (flay files) + free) with len in PF by (unfold len, D; lia).
+    replace ((hdr ++ ext) ++ flay files ++ zrepeat 255 free) with (hdr ++ tail) in PF
+      by (unfold tail; rewrite <- !app_assoc; reflexivity).
+    rewrite PF. destruct (zlen b1 <? len) eqn:E; [reflexivity|].
+    replace (len - zlen b1) with 0 by (unfold len, D in *; lia). change (zrepeat 255 0) with (@nil Z). rewrite app_nil_r. reflexivity. }
+  rewrite Eb2. rewrite Lv.
+  replace (len <? 40) with false by (unfold len; lia). replace (len <? 60) with false by (unfold len; lia).
+  replace (existsb (fun b => b) flags && bytes_eqb g FFS2) with false
+    by (destruct (existsb (fun b => b) flags) eqn:X; [rewrite (Hflag eq_refl); reflexivity|reflexivity]).
+  cbv iota.
+  (* the three header writes *)
+  set (A32 := zero ++ g).
+  set (A50 := A32 ++ le_enc 8 len ++ [95; 70; 86; 72] ++ le_enc 4 attrs ++ le_enc 2 HL).
+  set (A56 := A50 ++ le_enc 2 ck ++ le_enc 2 eo ++ [reserved; rev]).
+  set (R56 := le_enc 4 bsize ++ blocks_bytes more ++ zrepeat 0 8 ++ tail).
+  assert (L32 : zlen A32 = 32) by (unfold A32; rewrite zlen_app, Lz, Lg; reflexivity).
+  assert (L50 : zlen A50 = 50) by (unfold A50; rewrite !zlen_app, L32, le8', le4', le2'; reflexivity).
+  assert (L56 : zlen A56 = 56) by (unfold A56; rewrite !zlen_app, L50, !le2'; reflexivity).
+  assert (E32 : hdr ++ tail = A32 ++ le_enc 8 len ++
+                  ([95; 70; 86; 72] ++ le_enc 4 attrs ++ le_enc 2 HL ++ le_enc 2 ck ++ le_enc 2 eo ++
+                   [reserved; rev] ++ le_enc 4 count ++ R56)).
+  { unfold hdr, fv_header, A32, R56. rewrite <- !app_assoc. reflexivity. }
+  assert (E56 : hdr ++ tail = A56 ++ le_enc 4 count ++ R56).
+  { unfold hdr, fv_header, A56, A50, A32, R56. rewrite <- !app_assoc. reflexivity. }
+  assert (E50 : forall c, fv_header zero g len attrs c eo reserved rev count bsize more ++ tail =
+                          A50 ++ le_enc 2 c ++ (le_enc 2 eo ++ [reserved; rev] ++ le_enc 4 count ++ R56)).
+  { intros c. unfold fv_header, A50, A32, R56. rewrite <- !app_assoc. reflexivity. }
+  assert (S32 : splice 32 (le_enc 8 len) (hdr ++ tail) = hdr ++ tail).
+  { rewrite E32 at 1. rewrite <- L32. rewrite splice_mid by reflexivity. symmetry. exact E32. }
+  rewrite S32. rewrite ?Lv. replace (len <? 60) with false by (unfold len; lia). cbv beta iota.
+  assert (S56 : splice 56 (le_enc 4 count) (hdr ++ tail) = hdr ++ tail).
+  { rewrite E56 at 1. rewrite <- L56. rewrite splice_mid by reflexivity. symmetry. exact E56. }
+  rewrite S56.
+  assert (S50 : splice 50 [0; 0] (hdr ++ tail) =
+                fv_header zero g len attrs 0 eo reserved rev count bsize more ++ tail).
+  { unfold hdr. rewrite (E50 ck), (E50 0). rewrite <- L50.
+    change [0; 0] with (le_enc 2 0) at 1. apply splice_mid. rewrite !le2'. reflexivity. }
+  rewrite S50.
+  set (hdr0 := fv_header zero g len attrs 0 eo reserved rev count bsize more).
+  assert (Lh0 : zlen hdr0 = HL) by (apply zlen_fv_header; auto).
+  rewrite slice_ok by (rewrite ?zlen_app, ?Lh0; pose proof (zlen_nonneg tail); lia).
+  rewrite Z.sub_0_r.
+  assert (Esl0 : sub 0 HL (hdr0 ++ tail) = hdr0) by (apply sub_app_here; exact Lh0).
+  rewrite Esl0.
+  unfold HL at 1. rewrite fv_hlen_even. cbn [negb]. cbv iota.
+  change ((0 - sum16 hdr0) mod 65536) with ck.
+  assert (S50' : splice 50 (le_enc 2 ck) (hdr0 ++ tail) = hdr ++ tail).
+  { unfold hdr0, hdr. rewrite (E50 0), (E50 ck). rewrite <- L50. apply splice_mid. rewrite !le2'. reflexivity. }
+  rewrite S50'. cbn [bind]. cbv beta iota. cbn [bind fst snd].
+  eexists; eexists. split; [reflexivity|exact Epol].
+Qed.
+
+Theorem vol_ok_files_x zero g attrs reserved rev count bsize more eo ext files free :
+  zlen zero = 16 -> bytes_ok zero = true -> (g = FFS2 \/ g = FFS3) ->
+  0 <= attrs < 2 ^ 32 -> Z.land attrs 2048 <> 0 ->
+  0 <= reserved < 256 -> 0 <= rev < 256 ->
+  0 <= count < 2 ^ 32 -> 0 <= bsize < 2 ^ 32 -> (count =? 0) && (bsize =? 0) = false ->
+  forallb block_ok more = true -> fv_hlen more < 65536 ->
+  ext_ok (fv_hlen more) eo ext ->
+  Forall file_ok files -> files_aligned (fv_hlen more + zlen ext) files = true -> 0 <= free ->
+  fv_hlen more + zlen ext + zlen (flay files) + free < 2 ^ 64 ->
+  vol_ok (vol_bytes_x zero g attrs reserved rev count bsize more eo ext files free).
+Proof.
+  intros Lz Oz Hg Hat Hpol Hres Hrev Hc Hs Hnz Hmore Hhl Hext Hfiles Hal Hfree Hlen.
+  apply (vol_ok_files_flags zero g attrs reserved rev count bsize more eo ext (map (fun _ => false) files));
+    auto.
+  - clear - Hfiles. induction Hfiles as [|f r Hf Hr IH]; cbn [map]; constructor; auto.
+  - intros X. exfalso. clear - X. induction files as [|f r IH]; cbn in X; [discriminate|auto].
+Qed.
+
+(* an FFSv3 volume may also hold files rebuilt from their sections whose size reaches 16 MiB *)
+Theorem vol_ok_files_ffs3 zero attrs reserved rev count bsize more eo ext files free :
+  zlen zero = 16 -> bytes_ok zero = true ->
+  0 <= attrs < 2 ^ 32 -> Z.land attrs 2048 <> 0 ->
+  0 <= reserved < 256 -> 0 <= rev < 256 ->
+  0 <= count < 2 ^ 32 -> 0 <= bsize < 2 ^ 32 -> (count =? 0) && (bsize =? 0) = false ->
+  forallb block_ok more = true -> fv_hlen more < 65536 ->
+  ext_ok (fv_hlen more) eo ext ->
+  Forall (fun f => file_ok f \/ file_okL f) files ->
+  files_aligned (fv_hlen more + zlen ext) files = true -> 0 <= free ->
+  fv_hlen more + zlen ext + zlen (flay files) + free < 2 ^ 64 ->
+  vol_ok (vol_bytes_x zero FFS3 attrs reserved rev count bsize more eo ext files free).
+Proof.
+  intros Lz Oz Hat Hpol Hres Hrev Hc Hs Hnz Hmore Hhl Hext Hfiles Hal Hfree Hlen.
+  assert (F : exists flags, Forall2 file_ok_b flags files).
+  { clear - Hfiles. induction Hfiles as [|f r Hf Hr (fl & IH)]; [exists []; constructor|].
+    destruct Hf as [Hf|Hf].
+    - exists (false :: fl). constructor; [apply file_ok_b_false; exact Hf|exact IH].
+    - exists (true :: fl). constructor; [apply file_okL_b_true; exact Hf|exact IH]. }
+  destruct F as (flags & F).
+  apply (vol_ok_files_flags zero FFS3 attrs reserved rev count bsize more eo ext flags); auto.
+Qed.
+
+Theorem vol_ok_files zero g attrs reserved rev count bsize files free :
+  zlen zero = 16 -> bytes_ok zero = true -> (g = FFS2 \/ g = FFS3) ->
+  0 <= attrs < 2 ^ 32 -> Z.land attrs 2048 <> 0 ->
+  0 <= reserved < 256 -> 0 <= rev < 256 ->
+  0 <= count < 2 ^ 32 -> 0 <= bsize < 2 ^ 32 -> (count =? 0) && (bsize =? 0) = false ->
+  Forall file_ok files -> files_aligned 72 files = true -> 0 <= free ->
+  72 + zlen (flay files) + free < 2 ^ 64 ->
+  vol_ok (vol_bytes zero g attrs reserved rev count bsize files free).
+Proof.
+  intros. unfold vol_bytes. apply vol_ok_files_x; auto.
+  - reflexivity.
+  - left; split; reflexivity.
+Qed.
+
 
 (* ---------- R6: firmware-volume-image sections (nesting) ---------- *)
 
